@@ -311,6 +311,33 @@ func isSpillOf(v ssa.Value, prm *ssa.Parameter) bool {
 // compares the name of each existing element with the new element's name,
 // returns an error on equality and has no exit other than completion.
 func dupScanBefore(f *ssa.Function, w ssa.Instruction, newElem *ssa.Parameter, nameField string) (bool, string) {
+	// the first element of a collection found nil goes into a map made here:
+	// there is nothing to scan
+	if mu, ok := w.(*ssa.MapUpdate); ok {
+		if mk, isMk := mu.Map.(*ssa.MakeMap); isMk && mk.Parent() == f {
+			for _, ef := range expandFacts(factsAt(w.Block())) {
+				bo, ok := ef.Cond.(*ssa.BinOp)
+				if !ok {
+					continue
+				}
+				op := bo.Op
+				if !ef.Truth {
+					op = negateCmp(op)
+				}
+				if op != token.EQL {
+					continue
+				}
+				for _, pr := range [][2]ssa.Value{{bo.X, bo.Y}, {bo.Y, bo.X}} {
+					if !isNilConst(pr[1]) {
+						continue
+					}
+					if base, _, isFl := fieldLoad(pr[0]); isFl && len(f.Params) > 0 && base == ssa.Value(f.Params[0]) && types.Identical(pr[0].Type(), mk.Type()) {
+						return true, "the collection was found nil: the element is the first one of a map made here"
+					}
+				}
+			}
+		}
+	}
 	for _, b := range f.Blocks {
 		inLoop := naturalLoop(b)
 		if inLoop == nil || !b.Dominates(w.Block()) {
